@@ -281,7 +281,9 @@ class Interp:
         if isinstance(v, (ListV, SetV, DictV, SymSet, ValuesView)):
             return self.nonempty(v)
         if isinstance(v, RecV):
-            return True   # payloads built by the code under proof are never empty dict literals (checked at creation)
+            # a payload dict is falsy iff it holds none of the declared keys (`self.ref_stats = {}` ... `if self.ref_stats:`)
+            h = self.H(v)
+            return z3.Or([self.rec_has(k, h)[0][v.ref] for k in sorted(getattr(self.ts.shapes, 'REC_KEYS', {}))])
         raise Unsupported(f'truthiness of {type(v).__name__}')
 
     def as_bool(self, b):
@@ -534,6 +536,13 @@ class Interp:
             return d
         if isinstance(ty, TRec) and isinstance(val, ConstDict):
             return self.new_rec(val.items)
+        if isinstance(val, CompV):
+            from . import seqs
+            return seqs.bulk_materialize(self, val, ty)
+        if isinstance(ty, TTuple) and (isinstance(val, tuple) or (isinstance(val, ConstSeq) and val.kind == 'tuple')):
+            items = val.items if isinstance(val, ConstSeq) else list(val)
+            if len(items) == len(ty.ts):
+                return tuple(self.materialize(x, t) for x, t in zip(items, ty.ts))
         return val
 
     # ---- lists
@@ -1185,6 +1194,8 @@ class InterpExpr:
             return self.pin_like(v0, t)
         if all(self.family(v) == self.family(v0) for v in vals):
             ty = self.value_type(v0)
+            if ty == INT and any(self.value_type(v) == REAL for v in vals):
+                ty = REAL    # `x / y if y else 0`: the numeric tower, the result is represented as a real
             t = self.coerce_term(v0, ty)
             for c, v in reversed(pairs[:-1]):
                 t = z3.If(self.as_bool(c), self.coerce_term(v, ty), t)
@@ -1664,6 +1675,10 @@ class InterpComp:
         if isinstance(coll, ListV):
             i = self.run.fresh('gi', I)
             return [i], z3.And(0 <= i, i < self.list_len(coll)), self.list_get_nodom(coll, i)
+        if isinstance(coll, ZipV):
+            i = self.run.fresh('gi', I)
+            return [i], z3.And(0 <= i, *[i < self.list_len(l) for l in coll.lists]), \
+                tuple(self.list_get_nodom(l, i) for l in coll.lists)
         if isinstance(coll, (SetV, SymSet)):
             x = self.run.fresh('gx', sort_of(coll.ety))
             guard = self.set_chi(coll)[x]
@@ -1684,6 +1699,21 @@ class InterpComp:
                 return [k], guard, vv
             return [k], guard, (kv, vv)
         raise Unsupported(f'generic iteration over {type(coll).__name__}')
+
+    def seq_len_term(self, it):
+        """length of an indexable symbolic sequence (heap list or zip of heap lists)"""
+        if isinstance(it, ZipV):
+            n = self.list_len(it.lists[0])
+            for l in it.lists[1:]:
+                m = self.list_len(l)
+                n = z3.If(m < n, m, n)
+            return n
+        return self.list_len(it)
+
+    def seq_get(self, it, idx):
+        if isinstance(it, ZipV):
+            return tuple(self.list_get(l, idx) for l in it.lists)
+        return self.list_get(it, idx)
 
     def list_get_nodom(self, l, idx):
         _, da = self.list_data(l)
@@ -1818,6 +1848,11 @@ class InterpComp:
         if q[0] == 'const':
             pairs = self.eval_gen_const(q[1], q[2], q[3], q[4])
             return ConstDict([(p[0], p[1]) for p in pairs])
+        from . import seqs
+        _, vars_, guard, elt, coll = q
+        if len(vars_) == 1 and not n.generators[0].ifs and seqs.has_list_literal(elt[1]) \
+                and isinstance(elt[0], SV) and elt[0].t.eq(vars_[0]):
+            return CompV('dict', vars_[0], guard, elt[1], coll)
         return self.reg.dictcomp(self, n, fr, q)
 
 
@@ -1862,9 +1897,25 @@ class InterpStmt:
                 nme, a = self.set_arr(v)
                 self.heap.set(nme, z3.Store(a, v.ref, z3.K(sort_of(v.ety), z3.BoolVal(False))))
 
+    def _typed_local(self, v, s, fr):
+        """`x = []` / `x = {}` where the contract of the function declares the type of the local x (types={'x': ...}):
+        the literal becomes a heap collection of that type (needed when a loop with invariant mutates it)"""
+        if not (isinstance(v, (ConstSeq, ConstDict)) and fr.fi is not None and len(s.targets) == 1
+                and isinstance(s.targets[0], ast.Name)) or (isinstance(v, ConstSeq) and v.kind != 'list'):
+            return v
+        con = self.reg.contracts.get(fr.fi.qualname) or self.reg.loop_contracts.get(fr.fi.qualname)
+        name = s.targets[0].id
+        if con is None or name not in con.types or name in [a.arg for a in fr.fi.node.args.args]:
+            return v
+        ty = self.ts.ann_to_type(ast.parse(con.types[name], mode='eval').body, fr.fi.module, fr.fi.cls)
+        if not isinstance(ty, (TList, TDict)):
+            raise Unsupported(f'declared type {ty} of local {name!r} is not a list or dict type')
+        return self.materialize(v, ty)
+
     def st_Assign(self, s, fr):
         v = self.ev(s.value, fr)
         self._type_fresh_set(v, s, fr)
+        v = self._typed_local(v, s, fr)
         for t in s.targets:
             self.bind_target(t, v, fr, s.lineno)
         self.reg.ghost_after(self, s, fr)
@@ -1872,7 +1923,7 @@ class InterpStmt:
     def st_AnnAssign(self, s, fr):
         if s.value is not None:
             v = self.ev(s.value, fr)
-            if isinstance(s.target, ast.Name) and isinstance(v, (ConstSeq, ConstDict)):
+            if isinstance(s.target, ast.Name) and isinstance(v, (ConstSeq, ConstDict, CompV)):
                 # typed empty literal: keep the declared type for later materialisation
                 ty = self.ts.ann_to_type(s.annotation, fr.module, fr.defcls)
                 if ty != ANY and isinstance(ty, (TList, TDict, TSet)):
